@@ -5,7 +5,8 @@ PK = dict(harness="h_packet.c", units=["src/hamm.c"], flags=["--no-undefined-shi
          
           stubs=["struct caption carved out of vbi_decoder (include guard CC_H + dummy)", "vbi_send_event: log", "cache get/put/unref: stub",
                  "vbi_cni_table: empty", "8/30 + VPS decoders: stub FALSE", "_vbi_strlcpy: local copy"],
-          unwindset={"bytes_eq.0": 5000, "zero_except.0": 5000, "put_ham8.0": 50, "put_ham24.0": 20, "flip.0": 50, "is_ham8.0": 20, "ref_unham8.0": 20, "ref_ham24.0": 30, "ref_ham24.1": 30, "ref_ham24.2": 30, "ref_ham24.3": 30})
+          unwindset={"bytes_eq.0": 5000, "zero_except.0": 5000, "put_ham8.0": 50, "put_ham24.0": 20, "flip.0": 50, "is_ham8.0": 20, "ref_unham8.0": 20, "ref_ham24.0": 30, "ref_ham24.1": 30, "ref_ham24.2": 30, "ref_ham24.3": 30,
+                     "init_expand.0": 7, "init_expand.1": 65})
 
 
 def packet_obs():
